@@ -195,8 +195,18 @@ class PVLEncoder(object):
             (preq, _, posteq) = s.partition("=")
             new_prefix = prefix + preq.strip() + " = "
 
+            if posteq.strip() == "":
+                # Nothing to wrap (the value will be appended by the
+                # caller), and wrapping nothing would lose the name.
+                return prefix + s
+
+            # White space inside of Quoted Strings and Units Expressions
+            # is part of the value, only white space between elements
+            # may be turned into line breaks.
+            (protected, restore) = self._protect_whitespace(posteq.strip())
+
             lines = textwrap.wrap(
-                posteq.strip(),
+                protected,
                 width=(self.width - len(self.newline)),
                 replace_whitespace=False,
                 initial_indent=new_prefix,
@@ -204,9 +214,39 @@ class PVLEncoder(object):
                 break_long_words=False,
                 break_on_hyphens=False,
             )
-            return self.newline.join(lines)
+            return self.newline.join(lines).translate(restore)
         else:
             return prefix + s
+
+    def _protect_whitespace(self, s: str) -> tuple:
+        """Returns a two-tuple: *s* with every white space character
+        that is inside of a Quoted String or a Units Expression
+        replaced by a stand-in character, and a translation table
+        (for ``str.translate()``) that puts the originals back.
+        """
+        ws = "".join(self.grammar.whitespace)
+        # Find stand-in characters that do not occur in the text.
+        base = 0xE000
+        while any(chr(base + i) in s for i in range(len(ws))):
+            base += len(ws)
+        stand_in = {w: chr(base + i) for i, w in enumerate(ws)}
+        restore = {ord(v): k for k, v in stand_in.items()}
+
+        out = list()
+        end = None  # the character that ends the protected region
+        for c in s:
+            if end is not None:
+                if c == end:
+                    end = None
+                out.append(stand_in.get(c, c))
+            else:
+                if c in self.grammar.quotes:
+                    end = c
+                elif c == self.grammar.units_delimiters[0]:
+                    end = self.grammar.units_delimiters[1]
+                out.append(c)
+
+        return "".join(out), restore
 
     def encode(self, module: abc.Mapping) -> str:
         """Returns a ``str`` formatted as a PVL document based
